@@ -99,6 +99,7 @@ pub fn check(ctx: &Ctx) -> i32 {
             report.violations.push(write_replay(ctx, "core-pipeline", &bytes, &f));
         }
     }
+    super::opmatrix::run(ctx, Arch::Rv, &mut ev, &mut report);
     {
         let lcfg = lin_cfg_for(ctx, Arch::Rv);
         crate::fuzzrun::semantic_phase(ctx, &mut ev, &mut report, "lin-rv", 1008, "linear", 450, &|b| run_lin_case(ctx, Arch::Rv, &decode_lin(&lcfg, b), false).0);
@@ -117,6 +118,9 @@ pub fn replay(ctx: &Ctx, sub: &str, bytes: &[u8], case: &serde_json::Value) -> C
     }
     if sub.starts_with("core-pipeline") {
         return run_core_lin_case(ctx, Arch::Rv, bytes, false).0;
+    }
+    if sub.starts_with("matrix") {
+        return super::opmatrix::replay(ctx, Arch::Rv, case);
     }
     let c = fun_case_from_json(case).unwrap_or_else(|| decode(ctx, Arch::Rv, bytes));
     run_case(ctx, &c.prog, &c.tuples)
